@@ -33,9 +33,10 @@ LATS = {1: [40.0], 2: [-30.0, 50.0], 3: [-60.0, 10.0, 75.0]}
 
 
 def _shapes(tier):
+    # (40, 4) and (12, 1) are "tall and skinny" (n >= 10 p): the regime of covariance-based shortcuts
     if tier == "quick":
-        return [(6, 4), (4, 6), (12, 6), (8, 1)]
-    return [(8, 1), (6, 4), (4, 6), (9, 6), (12, 6)]
+        return [(6, 4), (4, 6), (12, 6), (8, 1), (40, 4)]
+    return [(8, 1), (12, 1), (6, 4), (4, 6), (9, 6), (12, 6), (40, 4)]
 
 
 def cases(tier, seed):
